@@ -9,7 +9,7 @@
    pkg/network/connection.go   startReadLoop -> transfer(): the read loop itself hands its read buffer over
 
    Signals, exec, fd passing over the unix socket are OS behaviour and are not modelled. *)
-From Coq Require Import List NArith Arith Bool Lia.
+From Coq Require Import List NArith ZArith Arith Bool Lia.
 From MV Require Import Lib.Bytes Lib.Seg.
 Import ListNotations.
 Open Scope nat_scope.
@@ -242,6 +242,51 @@ Definition is_pool_size (n : N) : bool := is_pool_size_from 64 n 40.
 Definition handed_over_conn_survives (has_room : bool) (buffered : N) : bool :=
   orb has_room (negb (is_pool_size buffered)).
 
+(* ------------------------------------------------------------------ 4b. hand-over and the write lock
+   connection.go: writeDirectly holds the connection's write lock (tryMutex) for the whole doWrite of a response.
+   transfer() runs in the read loop: notifyTransfer() takes that lock (so it WAITS for a write in progress) and sets
+   needTransfer - later writes are queued and forwarded through the write-path messages -, transferRead() sends the socket
+   to the new process.  `lock_first` (Gen/TransferTokens.v transfer_takes_write_lock_first) = notifyTransfer precedes
+   transferRead.
+   The wire as the client sees it: w = the old side's write in progress when transfer() is called (k of its bytes already
+   written), n = what the new side writes on the handed-over socket; j >= k = how many bytes of w are on the wire when the
+   new side's write goes out (chosen by the scheduler / the reader's pace).  With the lock taken first the socket is given
+   away only after the last byte of w. *)
+Inductive actor := AOld | ATransfer | ANew.
+(* h_old: bytes of the old side's write still to go out (the writer holds the lock while this is non-empty);
+   h_tpc: program counter of transfer(); h_fd: the new process has the socket; h_new: bytes the new side still has to write *)
+Record hst := mkH { h_old : bytes; h_tpc : nat; h_fd : bool; h_new : bytes; h_wire : bytes }.
+Definition is_nil {A} (l : list A) : bool := match l with [] => true | _ => false end.
+
+(* transfer(): lock_first: [take the write lock (blocks while a write is in progress); send the socket]
+               otherwise:  [send the socket; take the write lock] *)
+Definition t_step (lock_first : bool) (st : hst) : hst :=
+  let acquire := if is_nil (h_old st) then mkH (h_old st) (S (h_tpc st)) (h_fd st) (h_new st) (h_wire st) else st in
+  let sendfd := mkH (h_old st) (S (h_tpc st)) true (h_new st) (h_wire st) in
+  match h_tpc st with
+  | 0 => if lock_first then acquire else sendfd
+  | 1 => if lock_first then sendfd else acquire
+  | _ => st
+  end.
+Definition h_step (lock_first : bool) (st : hst) (a : actor) : hst :=
+  match a with
+  | AOld => match h_old st with
+            | [] => st
+            | x :: r => mkH r (h_tpc st) (h_fd st) (h_new st) (h_wire st ++ [x])
+            end
+  | ATransfer => t_step lock_first st
+  | ANew => if h_fd st then
+              match h_new st with
+              | [] => st
+              | x :: r => mkH (h_old st) (h_tpc st) (h_fd st) r (h_wire st ++ [x])
+              end
+            else st
+  end.
+(* the old write w has k bytes on the wire when transfer() is called; the new side will write n *)
+Definition h_init (w : bytes) (k : nat) (n : bytes) : hst := mkH (skipn k w) 0 false n (firstn k w).
+Definition h_run (lock_first : bool) (w : bytes) (k : nat) (n : bytes) (sched : list actor) : hst :=
+  fold_left (h_step lock_first) sched (h_init w k n).
+
 (* ------------------------------------------------------------------ 5. bolt request framing (length level)
    protocol/xprotocol/bolt: a request frame is 22 header bytes + class + header + content, the three lengths at
    offsets 14 (2 bytes), 16 (2 bytes), 18 (4 bytes).  Only the framing is needed for the hand-over. *)
@@ -370,6 +415,15 @@ Definition srv_case_ok (copy : bool) (k : srv_case) : bool :=
                         (combine ls open_after)))
   end.
 Definition srv_mismatches (copy : bool) (l : list srv_case) : list nat := mismatches_from (srv_case_ok copy) 0 l.
+
+(* half-written response at hand-over: |response 1|, |response 2|, was the client stream exactly response 1 ++ response 2,
+   offset at which response 2 was found in the client stream (-1: not found) *)
+Definition hw_case := (N * N * bool * Z)%type.
+Definition hw_case_ok (lock_first : bool) (k : hw_case) : bool :=
+  match k with (l1, l2, intact, off) =>
+    if lock_first then andb intact (Z.eqb off (Z.of_N l1)) else true
+  end.
+Definition hw_mismatches (lock_first : bool) (l : list hw_case) : list nat := mismatches_from (hw_case_ok lock_first) 0 l.
 
 (* what an existing connection was told by the time Shutdown returned: protocol, announced? *)
 Definition ann_case := (proto * bool)%type.
